@@ -19,15 +19,15 @@ import (
 	"verif/lib/h"
 )
 
-func TestMain(m *testing.M) { h.Main(m, "C03") }
-func TestAll(t *testing.T)  { h.RunAll(t) }
+func TestMain(m *testing.M)   { h.Main(m, "C03") }
+func TestAll(t *testing.T)    { h.RunAll(t) }
 func TestReplay(t *testing.T) { h.Replay(t) }
 
 // ---------------------------------------------------------------------------
 // case
 
 type Case struct {
-	Src  h.Str `json:"src"`
+	Src  h.Str  `json:"src"`
 	Kind string `json:"kind"`          // generator that produced it
 	CLI  string `json:"cli,omitempty"` // "", "file", "two-files", "cmdline"
 	Cut  int    `json:"cut,omitempty"` // line boundary index for two-files
@@ -187,7 +187,9 @@ func genBig(t *rapid.T) string {
 var arrayUses = []string{"X[1] = 1", "y = X[1]", "delete X[1]", "delete X", "y = (1) in X", "y = (1, 2) in X", "if ((k, 2) in X) n++", "print (1, 2) in X", "for (k in X) n++", "n = split(\"a b\", X)",
 	"n = split(\"a b\", X, /b/)", "arrf(X)", "getline X[1]", "sub(/a/, \"b\", X[1])", "y = X[1, 2]", "X[1]++", "y = !((1,2) in X)", "while ((1, 2) in X) break", "y = 1 + (3, 4) in X"}
 var scalarUses = []string{"X = 1", "y = X + 1", "X++", "print X", "getline X", "scalf(X)", "y = X ~ /a/", "y = $X", "sub(/a/, \"b\", X)", "y = X \"s\"", "y = -X", "X += 2", "y = length(X) X", "printf \"%s\", X", "y = (X, 1) in arr"}
-var otherBad = []string{"y = undefinedf(1)", "scalf(1, 2, 3)", "arrf(1)", "y = scalf", "scalf = 1", "NR[1] = 1", "y = (1, 2) in NR", "y = ENVIRON + 1", "ARGV = 1", "function scalf(q) { }", "function dup(a, a) { }", "function NR() { }", "function nrp(NR) { }", "y = arrf(scalf)", "scalf[1] = 2", "y = (1, 2) in scalf"}
+var otherBad = []string{"break", "continue", "if (y) break", "if (y) continue; else n++", "function brk(x) { if (x) break }", "function cnt(x) { continue }", "function brk2(x) { while (x) { x-- }; break }",
+	"function inl(x) { for (;;) { if (x) break; else continue } break }", "return 1", "function nx(x) { next }", "next", "nextfile", "function nf2() { nextfile }", "exit; break", "{ break }", "do break; while (0); continue",
+	"for (k in arr) break; continue", "getline; break", "function deepb(x) { if (x) { if (x > 1) { { break } } } }", "while (0) { function nested() { } }", "y = undefinedf(1)", "scalf(1, 2, 3)", "arrf(1)", "y = scalf", "scalf = 1", "NR[1] = 1", "y = (1, 2) in NR", "y = ENVIRON + 1", "ARGV = 1", "function scalf(q) { }", "function dup(a, a) { }", "function NR() { }", "function nrp(NR) { }", "y = arrf(scalf)", "scalf[1] = 2", "y = (1, 2) in scalf"}
 
 func genSemantic(t *rapid.T) string {
 	name := rapid.SampledFrom([]string{"x", "x", "val", "NR", "FS", "p", "ENVIRON", "scalf"}).Draw(t, "name")
